@@ -279,7 +279,15 @@ func runC18(c *Ctx) {
 	nph := c18work.LoadPhotos(repo)
 	c.NoteN("aztec-photos", nph)
 	jobs := c18work.Jobs(c.Seed, c.Pick(96, 480))
+	// cold start under concurrency first: nothing of the library has run in this process yet
+	coldRes, coldBad := c18work.Concurrent(jobs, 16, 1, 16, c.Seed)
 	want := c18work.Sequential(jobs)
+	coldBad = append(coldBad, c18work.Compare(coldRes, want)...)
+	if len(coldBad) > 0 {
+		c.Oracle("c18-run", false, "concurrent-result-differs", "in-process cold start k=16 procs=16", strings.Join(coldBad, "\n"))
+	} else {
+		c.Oracle("c18-run", true, "", "in-process cold start k=16 procs=16", "")
+	}
 	for i, w := range want {
 		switch {
 		case strings.Contains(w, "text="), strings.HasPrefix(w, "aztec:"):
@@ -310,7 +318,8 @@ func runC18(c *Ctx) {
 		}
 	}
 	for ci, cf := range cfgs {
-		bad := c18work.Concurrent(jobs, want, cf.k, cf.reps, cf.procs, c.Seed+uint64(ci))
+		results, bad := c18work.Concurrent(jobs, cf.k, cf.reps, cf.procs, c.Seed+uint64(ci))
+		bad = append(bad, c18work.Compare(results, want)...)
 		n := cf.k * cf.reps * len(jobs)
 		c.NoteN(fmt.Sprintf("concurrent:k=%d,procs=%d:comparisons", cf.k, cf.procs), n)
 		c.mu.Lock()
